@@ -1514,3 +1514,215 @@ Proof.
   intros I H A. split; [exact (inv_att _ _ I k s H A)|].
   intros E. apply (inv_empty _ _ I k s H A); [discriminate|exact E].
 Qed.
+
+(* ====================================================================================== *)
+(* C19: a session can be driven only from the IP that created it and, while it streams over
+   an interleaved connection, only from that connection                                     *)
+(* ====================================================================================== *)
+
+(* every connection that is or was linked to a session has the IP of the session's author *)
+Definition ipinv (sv : server) : Prop :=
+  forall c x k, nnth c (conns sv) = Some x -> csess x = Some k ->
+  exists s, nnth k (sessions sv) = Some s /\ cip x = saip s.
+
+Lemma close_conns_fields l cs c y :
+  nnth c (close_conns l cs) = Some y -> exists x, nnth c cs = Some x /\ csess y = csess x /\ cip y = cip x.
+Proof.
+  rewrite nnth_close_conns. destruct (nnth c cs) as [x|]; [|discriminate]. cbn [option_map].
+  destruct (nmem c l); intros H; inversion H; subst; eauto.
+Qed.
+
+Lemma end_session_ipinv k w sv sv' evs : end_session k w sv = (sv', evs) -> ipinv sv -> ipinv sv'.
+Proof.
+  unfold end_session. intros H I.
+  destruct (nnth k (sessions sv)) as [s|] eqn:Ek; [|inversion H; subst; exact I].
+  destruct (salive s); inversion H; subst; [|exact I].
+  intros c y k' Hc Hk; cbn [sessions conns] in *.
+  destruct (close_conns_fields _ _ _ _ Hc) as (x & X1 & X2 & X3). rewrite X2 in Hk.
+  destruct (I c x k' X1 Hk) as (s' & S1 & S2). rewrite (nnth_nset _ _ _ _ _ Ek).
+  destruct (N.eqb_spec k' k) as [->|]; [|exists s'; split; congruence].
+  rewrite Ek in S1; inversion S1; subst s'. eexists; split; [reflexivity|]. cbn. congruence.
+Qed.
+
+Lemma ipinv_set_sess k s s' sv :
+  nnth k (sessions sv) = Some s -> saip s' = saip s -> ipinv sv -> ipinv (set_sess k s' sv).
+Proof.
+  intros Ek E I c x k' Hc Hk; cbn [set_sess sessions conns] in *.
+  destruct (I c x k' Hc Hk) as (s0 & S1 & S2). rewrite (nnth_nset _ _ _ _ _ Ek).
+  destruct (N.eqb_spec k' k) as [->|]; [|eauto]. rewrite Ek in S1; inversion S1; subst s0.
+  exists s'. split; [reflexivity|congruence].
+Qed.
+
+Lemma ipinv_set_conn c x x' sv :
+  nnth c (conns sv) = Some x -> cip x' = cip x ->
+  (forall k, csess x' = Some k -> csess x = Some k \/ exists s, nnth k (sessions sv) = Some s /\ cip x = saip s) ->
+  ipinv sv -> ipinv (set_conn c x' sv).
+Proof.
+  intros Ec E L I c0 y k Hc Hk; cbn [set_conn sessions conns] in *.
+  rewrite (nnth_nset _ _ _ _ _ Ec) in Hc. destruct (N.eqb_spec c0 c) as [->|]; [|eauto].
+  inversion Hc; subst y. destruct (L k Hk) as [L1|(s & S1 & S2)].
+  - destruct (I c x k Ec L1) as (s & S1 & S2). exists s. split; congruence.
+  - exists s. split; congruence.
+Qed.
+
+Lemma close_conn_ipinv c sv sv' evs : close_conn c sv = Some (sv', evs) -> ipinv sv -> ipinv sv'.
+Proof.
+  unfold close_conn. intros H I.
+  destruct (nnth c (conns sv)) as [x|] eqn:Ec; [|inversion H; subst; exact I].
+  destruct (copen x); cbn [negb] in H; [|inversion H; subst; exact I].
+  assert (I1 : ipinv (set_conn c (mkConn false (csess x) (cip x) (ctcp x)) sv)).
+  { eapply ipinv_set_conn; eauto. }
+  destruct (csess x) as [k|] eqn:Ex; [|inversion H; subst; exact I1].
+  destruct (nnth k (sessions (set_conn c _ sv))) as [s|] eqn:Ek; [|inversion H; subst; exact I1].
+  destruct (salive s); cbn [negb] in H; [|inversion H; subst; exact I1].
+  match type of H with context [set_sess k ?s2 ?sv1] =>
+    assert (I2 : ipinv (set_sess k s2 sv1)) by (eapply ipinv_set_sess; eauto)
+  end.
+  destruct (streaming s).
+  - destruct (stransport s); [|discriminate].
+    destruct (_ && _); inversion H as [H1]; clear H; [eapply end_session_ipinv; eauto|subst; exact I2].
+  - destruct (_ =? _); inversion H as [H1]; clear H; [eapply end_session_ipinv; eauto|subst; exact I2].
+Qed.
+
+Lemma finish_ipinv c sv rp e evs0 sv' rp' evs :
+  finish c sv rp e evs0 = Done sv' rp' evs -> ipinv sv -> ipinv sv'.
+Proof.
+  unfold finish. destruct (is_fatal e).
+  - destruct (close_conn c sv) as [[sv1 ev1]|] eqn:E; [|discriminate].
+    intros H I; inversion H; subst. eapply close_conn_ipinv; eauto.
+  - intros H I; inversion H; subst. exact I.
+Qed.
+
+Lemma in_session_ipinv cf sv c x r k evs0 sv' rp evs s :
+  in_session cf sv c x r k evs0 = Done sv' rp evs ->
+  nnth c (conns sv) = Some x -> nnth k (sessions sv) = Some s -> cip x = saip s ->
+  ipinv sv -> ipinv sv'.
+Proof.
+  unfold in_session. intros H Ec Ek Eip I. rewrite Ek in H.
+  destruct (handle _ _ _ _ _) as [s1 status e| |] eqn:Eh; [|discriminate|discriminate].
+  destruct (handle_frame _ _ _ _ _ _ _ _ Eh) as (_ & _ & F3). cbn [upd_conns saip] in F3.
+  set (s2 := if negb (is_fatal e) && meth_eqb (rmeth r) Teardown then upd_conns s1 (nremove c (sconns s1)) else s1) in H.
+  assert (I1 : ipinv (set_sess k s2 sv)).
+  { eapply ipinv_set_sess; eauto. subst s2. destruct (_ && _); cbn; congruence. }
+  match type of H with context [set_conn c ?x' (set_sess k s2 sv)] =>
+    assert (I2 : ipinv (set_conn c x' (set_sess k s2 sv)))
+  end.
+  { eapply ipinv_set_conn; [exact Ec|reflexivity| |exact I1].
+    intros k0 Hk. cbn [csess] in Hk. destruct (_ && _); [discriminate|]. inversion Hk; subst k0.
+    right. exists s2. unfold set_sess; cbn [sessions]. split; [apply nnth_nset_same; eapply nnth_some_lt; eauto|].
+    subst s2. destruct (_ && _); cbn; congruence. }
+  destruct (negb (is_fatal e) && meth_eqb (rmeth r) Teardown).
+  - destruct (end_session k 1 _) as [sv3 evs1] eqn:Ee. apply end_session_ipinv in Ee; [|exact I2].
+    eapply finish_ipinv; eauto.
+  - eapply finish_ipinv; eauto.
+Qed.
+
+Lemma ipinv_init ips : ipinv (init_server ips).
+Proof.
+  intros c x k Hc Hk. cbn [init_server conns] in Hc. rewrite nnth_map in Hc.
+  destruct (nnth c ips); [|discriminate]. inversion Hc; subst x. discriminate.
+Qed.
+
+(* the connection of a request that reaches a session's handler has the IP of the session's author *)
+Theorem target_owner_ip cf sv r k s x :
+  ipinv sv -> target cf sv r = Some k ->
+  nnth (rconn r) (conns sv) = Some x -> nnth k (sessions sv) = Some s -> cip x = saip s.
+Proof.
+  unfold target, lookup. intros I T Ec Ek. rewrite Ec in T.
+  destruct (copen x); cbn [negb] in T; [|discriminate].
+  destruct (rcseq r); cbn [negb] in T; [|discriminate].
+  destruct (dispatch cf r) as [|create]; [discriminate|].
+  destruct (csess x) as [k0|] eqn:Ex.
+  - destruct (match rsess r with Some k1 => negb (k1 =? k0) | None => false end); [discriminate|].
+    inversion T; subst k0. destruct (I _ _ _ Ec Ex) as (s' & S1 & S2). congruence.
+  - destruct (rsess r) as [k1|].
+    + destruct (nnth k1 (sessions sv)) as [s1|] eqn:E1.
+      * destruct (salive s1).
+        -- destruct (N.eqb_spec (cip x) (saip s1)); [|discriminate]. inversion T; subst k1. congruence.
+        -- destruct create; [|discriminate]. inversion T; subst k. apply nnth_some_lt in Ek. lia.
+      * destruct create; [|discriminate]. inversion T; subst k. apply nnth_some_lt in Ek. lia.
+    + destruct create; [|discriminate]. inversion T; subst k. apply nnth_some_lt in Ek. lia.
+Qed.
+
+Theorem step_ipinv cf sv r sv' rp evs : step cf sv r = Done sv' rp evs -> ipinv sv -> ipinv sv'.
+Proof.
+  unfold step. intros H I.
+  destruct (nnth (rconn r) (conns sv)) as [x|] eqn:Ec; [|inversion H; subst; exact I].
+  destruct (copen x); cbn [negb] in H; [|inversion H; subst; exact I].
+  destruct (ctcp x && _); [discriminate|].
+  destruct (rcseq r); cbn [negb] in H; [|eapply finish_ipinv; eauto].
+  destruct (dispatch cf r) as [|create]; [eapply finish_ipinv; eauto|].
+  destruct (csess x) as [k0|] eqn:Ex.
+  - destruct (match rsess r with Some k1 => negb (k1 =? k0) | None => false end); [eapply finish_ipinv; eauto|].
+    destruct (I _ _ _ Ec Ex) as (s & S1 & S2). eapply in_session_ipinv; eauto.
+  - destruct (match rsess r with Some k1 => _ | None => None end) as [[k s]|] eqn:El.
+    + destruct (N.eqb_spec (cip x) (saip s)); [|eapply finish_ipinv; eauto].
+      assert (Ek : nnth k (sessions sv) = Some s).
+      { destruct (rsess r) as [k1|]; [|discriminate]. destruct (nnth k1 (sessions sv)) as [s2|] eqn:E2; [|discriminate].
+        destruct (salive s2); [|discriminate]. inversion El; subst. exact E2. }
+      eapply in_session_ipinv; eauto.
+    + destruct create; [|eapply finish_ipinv; eauto].
+      eapply in_session_ipinv; [exact H|exact Ec|apply nnth_app_last|reflexivity|].
+      intros c y k Hc Hk; cbn [sessions conns] in *. destruct (I c y k Hc Hk) as (s & S1 & S2).
+      exists s. split; [apply nnth_app_l; exact S1|exact S2].
+Qed.
+
+(* a request carrying the id of a live session, sent on a fresh connection from another IP than the
+   session's author: 400, the connection is closed, no session record changes, nothing ends *)
+Theorem stolen_id_other_ip cf sv r c x k s create :
+  inv sv ->
+  rconn r = c -> nnth c (conns sv) = Some x -> copen x = true -> csess x = None ->
+  rcseq r = true -> dispatch cf r = InSess create ->
+  rsess r = Some k -> nnth k (sessions sv) = Some s -> salive s = true ->
+  cip x <> saip s ->
+  step cf sv r =
+    Done (set_conn c (mkConn false None (cip x) (ctcp x)) sv) (Some (mkResp sBad true None)) [].
+Proof.
+  intros I Rc Ec Eo Ex Eq Ed Es Ek Al NE. unfold step. rewrite Rc, Ec, Eo. cbn [negb].
+  destruct (ctcp x) eqn:Et.
+  { destruct (inv_tcp _ _ I _ _ Ec Eo Et) as (k0 & s0 & T1 & _). congruence. }
+  cbn [andb]. rewrite Eq. cbn [negb]. rewrite Ed, Ex, Es, Ek, Al.
+  destruct (N.eqb_spec (cip x) (saip s)); [contradiction|].
+  unfold finish. cbn [is_fatal]. unfold close_conn. rewrite Ec, Eo. cbn [negb]. rewrite Ex, Et. reflexivity.
+Qed.
+
+(* a request that reaches a session pinned to another (interleaved) connection: 400, and no session
+   record changes except connection lists *)
+Theorem pinned_other_conn cf sv r sv' rp evs k s c' :
+  step cf sv r = Done sv' rp evs ->
+  target cf sv r = Some k -> nnth k (sessions sv) = Some s ->
+  stcpconn s = Some c' -> c' <> rconn r ->
+  status_of rp = sBad /\ frame (sessions sv) (sessions sv').
+Proof.
+  unfold target, lookup. intros H T Ek P NC. unfold step in H.
+  destruct (nnth (rconn r) (conns sv)) as [x|]; [|discriminate].
+  destruct (copen x); cbn [negb] in *; [|discriminate].
+  destruct (ctcp x && _); [discriminate|].
+  destruct (rcseq r); cbn [negb] in *; [|discriminate].
+  destruct (dispatch cf r) as [|create]; [discriminate|].
+  assert (IS : in_session cf sv (rconn r) x r k [] = Done sv' rp evs ->
+               status_of rp = sBad /\ frame (sessions sv) (sessions sv')).
+  { intros Hi. pose proof (in_session_spec _ _ _ _ _ _ _ _ _ _ Hi) as (s0 & s1 & status & e & sid & E0 & Eh & _ & ->).
+    apply in_session_frame in Hi. destruct Hi as (s0' & s1' & status' & e' & E0' & Eh' & F).
+    rewrite Ek in E0, E0'. inversion E0; inversion E0'; subst s0 s0'. rewrite Eh in Eh'. inversion Eh'; subst s1' status' e'.
+    assert (Pn : stcpconn (upd_conns s (nadd (rconn r) (sconns s))) = Some c') by exact P.
+    destruct (handle_pinned_other _ _ _ _ _ _ _ _ _ Pn NC Eh) as [-> ->].
+    unfold handle, pin_reject in Eh. rewrite Pn in Eh. destruct (N.eqb_spec c' (rconn r)); [contradiction|].
+    cbn [negb] in Eh. unfold fail400 in Eh. inversion Eh; subst status. split; [reflexivity|].
+    intros k' s' H1. destruct (F k' s' H1) as (s2 & H2 & S). rewrite (nnth_nset _ _ _ _ _ Ek) in H2.
+    destruct (N.eqb_spec k' k) as [->|]; [|eauto].
+    inversion H2; subst s2. exists s. split; [exact Ek|]. intros Al. destruct (S Al) as (l & ->). eauto. }
+  destruct (csess x) as [k0|].
+  - destruct (match rsess r with Some k1 => negb (k1 =? k0) | None => false end); [discriminate|].
+    inversion T; subst k0. auto.
+  - destruct (match rsess r with Some k1 => _ | None => None end) as [[k1 s1]|].
+    + destruct (cip x =? saip s1); [|discriminate]. inversion T; subst k1. auto.
+    + destruct create; [|discriminate]. inversion T; subst k. apply nnth_some_lt in Ek. lia.
+Qed.
+
+Lemma pin_only_while_interleaved sv k s c :
+  inv sv -> nnth k (sessions sv) = Some s -> salive s = true -> stcpconn s = Some c ->
+  streaming s = true /\ stransport s = Some TCP.
+Proof.
+  intros I H A P. destruct (inv_sess _ _ I k s H A) as (_ & _ & _ & _ & _ & I6 & _). exact (I6 c P).
+Qed.
